@@ -150,6 +150,37 @@ def processDiscoveredDependencies (style : DepsStyle) : List DepsFile → R Bool
       | .ok false => .ok false
       | .ok true => processDiscoveredDependencies style fs
 
+/-- `actOnInput` of `processDependencyInfoDiscoveredDependencies`: the node key made from an input record.  The operand is
+used as it is unless the (extracted) code puts the command's working directory in front of a relative one, as
+`actOnRuleDependency` does for Makefile-style files. -/
+def depInfoKey (wd p : Bytes) : Bytes :=
+  if Generated.shDepInfoInputResolved then MakeDeps.resolve wd p else p
+
+/-- the node keys ONE dependency file hands to `ti.discoveredDependency`, in order (the callbacks run while the file is
+parsed, i.e. also for a file that then turns out to contain an error) -/
+def fileKeys (style : DepsStyle) (wd : Bytes) : DepsFile → R (List Bytes)
+  | none => .ok []
+  | some contents =>
+    match style with
+    | .unused => .ok []
+    | .makefile => mapOk (MakeDeps.discovered wd) (MakeDeps.parse false contents)
+    | .makefileIgnoringSubsequentOutputs => mapOk (MakeDeps.discovered wd) (MakeDeps.parse true contents)
+    | .dependencyInfo =>
+      mapOk (fun acts => acts.filterMap (fun a => match a with | .input s => some (depInfoKey wd s) | _ => none))
+        (DepInfo.parse contents)
+
+/-- every key `processDiscoveredDependencies` has handed to the engine when it returns: the keys of each file of the
+`deps:` list up to and including the first one that makes it `return false` -/
+def discoveredKeys (style : DepsStyle) (wd : Bytes) : List DepsFile → R (List Bytes)
+  | [] => .ok []
+  | f :: fs =>
+    if style = .unused then .ok []
+    else match processFile style f, fileKeys style wd f with
+      | .error e, _ => .error e
+      | _, .error e => .error e
+      | .ok false, .ok ks => .ok ks
+      | .ok true, .ok ks => mapOk (fun rest => ks ++ rest) (discoveredKeys style wd fs)
+
 inductive Status
   | succeeded | failed
   deriving DecidableEq, Repr
